@@ -52,12 +52,13 @@ type GenOpts struct {
 	ExtTypes    bool     // allow ext / ext2 types
 	ModSubset   bool     // restrict flows to the modifier-mode subset
 	PAuto       float64  // probability that -auto-instrument applies (package level)
+	PShadow     float64  // probability that the enclosing function shadows generated identifiers
 }
 
 // DefaultOpts is the broad mixture.
 func DefaultOpts() GenOpts {
 	return GenOpts{PPred: 0.2, PFallback: 0.15, PInstrument: 0.3, PEmitters: 0.3, PInstrD: 0.6, PWrap: 0.2,
-		PParallel: 0.35, PEnd: 0.4, PCOE: 0.5, MaxTasks: 7,
+		PParallel: 0.35, PEnd: 0.4, PCOE: 0.5, MaxTasks: 7, PShadow: 0.15,
 		Spellings: []string{"lit", "lit", "lit", "top", "method", "funcvar", "callret", "imported"}, ExtTypes: true}
 }
 
@@ -237,6 +238,19 @@ func genCommon(t *rapid.T, s *rt.Spec, o GenOpts) {
 		}
 	}
 	s.Wrap = !o.ModSubset && prob(t, "wrap", o.PWrap)
+	if !o.ModSubset {
+		s.Shadow = prob(t, "shadow", o.PShadow)
+		switch uniform(t, "encl", 8) {
+		case 0:
+			s.Encl = "closure"
+		case 1:
+			s.Encl = "generic"
+		}
+		s.Paren = prob(t, "paren", 0.12)
+		if prob(t, "extra", 0.2) {
+			s.Extra = 1 + uniform(t, "extran", 2)
+		}
+	}
 	// listing order: a permutation of the options (filled by the renderer's option list)
 	n := 64
 	s.Order = make([]int, n)
